@@ -93,4 +93,28 @@ theorem C20_domain_overapproximates (P : Sem.Params) (hp : Sem.AggPersistent P) 
     ∀ a d, T a → mapOf m a.name a.args.length = some d → T ⟨d, a.args⟩ :=
   dom_overapprox_of_check P hp hdn m prg hc T hT
 
+/-! non-vacuity: the choice program `{out(X)} :- d(X).  p(X) :- d(X), out(X).` with the domain rules the pass generates
+passes the check, so the theorem applies to it -/
+namespace C20ex
+open Proofs.C20dom Sem
+def atomL (n : String) (vs : List String) : BLit := .lit (.pos, .sym (.fn n (vs.map Term.var) false))
+def headL (n : String) (vs : List String) : Head := .lit (.pos, .sym (.fn n (vs.map Term.var) false))
+def prg : Prog :=
+  [ .rule 1 1 (.agg none [((.pos, .sym (.fn "out" [.var "X"] false)), [])] none) [atomL "d" ["X"]],
+    .rule 2 1 (headL "p" ["X"]) [atomL "d" ["X"], atomL "out" ["X"]],
+    .rule 1 1 (headL "__dom_out" ["X"]) [atomL "d" ["X"]],
+    .rule 1 1 (headL "__dom_p" ["X"]) [atomL "d" ["X"], atomL "__dom_out" ["X"]] ]
+def m : List ((String × Nat) × String) := [(("out", 1), "__dom_out"), (("p", 1), "__dom_p")]
+set_option maxRecDepth 4000 in
+theorem check : coveredCheck m prg = true := by
+  simp [coveredCheck, ruleCoveredCheck, prg, m, headL, atomL, headOtherCheck, hasDomRule, domLitCheck, mapOf, globalsOf,
+    stdHeadGlobals, bodyGlobals, blitGlobals, litVars, litTerms, Atom.terms, Term.vars, termsEqb, termEqb, iffB,
+    atomAvoids, qsig, posAtom, condLitTerms, litsTerms, BLit.vars, BLit.terms, blitMem, blitEqb, litEqb, atomEqb,
+    blitScoped, atomScoped, optGuardTerms]
+/-- in every stable model of the example, `p(c)` comes with `__dom_p(c)` -/
+example (P : Params) (hp : AggPersistent P) (hdn : DnegT P) (T : Interp) (hT : Stable (stdParams P) prg T) (c : NgoVerif.Sym)
+    (h : T ⟨"p", [c]⟩) : T ⟨"__dom_p", [c]⟩ :=
+  C20_domain_overapproximates P hp hdn m prg check T hT ⟨"p", [c]⟩ "__dom_p" h (by simp [mapOf, m])
+end C20ex
+
 end NgoVerif
